@@ -57,9 +57,9 @@ def sliceToUnsigned (w : Nat) (s : Bytes) : Res (Option Nat) :=
 
 /-- `Integer::check_head` -/
 def checkHeadSigned : Prog Unit := do
-  if (← reqCapped 2) == 0 then contentErr
+  let (n, a, b) ← peek2
+  if n == 0 then contentErr
   else
-    let (a, b) ← peek2
     match a, b.map (fun x => (x &&& 0x80) != 0) with
     | some 0, some false => contentErr
     | some 0xFF, some true => contentErr
@@ -67,9 +67,9 @@ def checkHeadSigned : Prog Unit := do
 
 /-- `Unsigned::check_head` -/
 def checkHeadUnsigned : Prog Unit := do
-  if (← reqCapped 2) == 0 then contentErr
+  let (n, a, b) ← peek2
+  if n == 0 then contentErr
   else
-    let (a, b) ← peek2
     match a, b.map (fun x => (x &&& 0x80) != 0) with
     | some 0, some false => contentErr
     | some 0xFF, some true => contentErr
